@@ -287,7 +287,9 @@ inline void run_one(const HarnessDef& h, const Workload& w, uint64_t seed,
     rt_set_in_run(true);
     if (h.concurrent) {
         SimCfg c; vec_to_simcfg(w.simv, c);
-        rt_run_begin(c, seed, replay ? replay->data() : nullptr, replay ? replay->size() : 0);
+        // (an empty list is a replay too -- all decisions default --, and an empty vector's data() may be null)
+        static const uint8_t no_decisions = 0;
+        rt_run_begin(c, seed, replay ? (replay->empty() ? &no_decisions : replay->data()) : nullptr, replay ? replay->size() : 0);
     } else {
         rt_ledger_reset();
     }
